@@ -224,3 +224,30 @@ func H_C07_repeated_elements() {
 	verifAssert(ba == want, "Equals is symmetric")
 	verifReach("end")
 }
+
+
+// Equals is a function of its two operands only: after many earlier comparisons (equal and unequal, four
+// levels deep) the answer for a fresh pair is what it would have been at the start.
+func H_C07_after_many_calls() {
+	verifBound("EARLIER_CALLS", 40)
+	mk := func(leaf int) List {
+		return NewList(NewObject("a", NewList(NewObject("b", leaf), 1)), "s")
+	}
+	p, q, r := mk(1), mk(2), mk(1)
+	for i := 0; i < 40; i++ {
+		ne, pa := hEqualsAny(p, q)
+		eq, pb := hEqualsAny(p, r)
+		if ne || !eq || pa || pb {
+			verifAssert(false, "Equals is exactly typed structural equality")
+		}
+	}
+	x, y := nondetInt(), nondetInt()
+	a, b := mk(x), mk(y)
+	got, pc := hEqualsAny(a, b)
+	verifAssert(!pc, "Equals never panics")
+	verifAssert(got == (x == y), "Equals is exactly typed structural equality")
+	cl := a.Clone()
+	same, pd := hEqualsAny(a, cl)
+	verifAssert(!pd && same, "Equals is reflexive")
+	verifReach("end")
+}
